@@ -98,7 +98,9 @@ theorem C14_sizes (m : Msg) (hwf : WFMsg m) (hfit : FitAll m) (pks : List Bytes)
   exact ⟨hsz p hp, w, hw2.symm, hone p hp w hw2.symm⟩
 
 /-- **Counts.**  Every datagram is well formed: its four header counts equal the entries present,
-nothing trails. -/
+nothing trails.  (`strict_decode_counts` is a property of `Strict.decode`'s definition — it reads exactly as many
+entries as the header announces; the content of this theorem is that the emitted datagram is *accepted*, which also
+means no byte is left over after the last announced entry: `Strict.decode` demands `o4 = pkt.length`.) -/
 theorem C14_counts (m : Msg) (hwf : WFMsg m) (hfit : FitAll m) (pks : List Bytes) (h : packets m = .ok pks) :
     ∀ p ∈ pks, ∃ w, Strict.decode p = some w ∧
       u16At p 4 = some w.questions.length ∧ u16At p 6 = some w.answers.length ∧
